@@ -403,23 +403,25 @@ def deleteNames (txn : List Edit) : List Name :=
     | .delete n => some n
     | _ => none
 
+/-- the object updates that go to packed-refs -/
+def upsOf (m : Mode) (txn : List Edit) : List (Name × Bytes) := if m = .d then [] else objUpdates txn
+
+/-- the deletions the packed transaction keeps: those present in the buffer — if there is a buffer -/
+def delsOf (s : Store) (txn : List Edit) : List Name :=
+  if s.packed.isSome then s.packedDeletions txn else deleteNames txn
+
 /-- the records `packed::Transaction::commit` writes: the old ones that are neither deleted nor
 updated, merged with the updates, in name order -/
 def Store.remainingM (s : Store) (m : Mode) (txn : List Edit) : List (Name × Bytes) :=
-  let ups := if m = .d then [] else objUpdates txn
   let kept := (s.packed.getD []).filter fun r =>
-    !(deleteNames txn).contains r.1 && !(ups.map (·.1)).contains r.1
-  ups.foldl (fun acc u => insertRec u acc) kept
+    !(deleteNames txn).contains r.1 && !((upsOf m txn).map (·.1)).contains r.1
+  (upsOf m txn).foldl (fun acc u => insertRec u acc) kept
 
 def packedCommitM (m : Mode) (c : Cfg) (s : Store) (txn : List Edit) : List FsOp :=
   if !s.hasGlobalLockM m txn then [] else
-  let ups := if m = .d then [] else objUpdates txn
-  -- deletions of names that are not in the buffer are dropped in `prepare` — if there is a buffer
-  let dels := if s.packed.isSome then s.packedDeletions txn else deleteNames txn
-  if ups.isEmpty && dels.isEmpty then [.unlink (lockPath packedPath)] else
-  let rest := s.remainingM m txn
-  writeOps c.chunk (lockPath packedPath) (renderPacked rest) ++
-    (if rest.isEmpty then [.unlink packedPath, .unlink (lockPath packedPath)]
+  if (upsOf m txn).isEmpty && (delsOf s txn).isEmpty then [.unlink (lockPath packedPath)] else
+  writeOps c.chunk (lockPath packedPath) (renderPacked (s.remainingM m txn)) ++
+    (if (s.remainingM m txn).isEmpty then [.unlink packedPath, .unlink (lockPath packedPath)]
      else [.rename (lockPath packedPath) packedPath])
 
 def looseDeleteM (m : Mode) (s : Store) (global : Bool) (g : G) : Edit → List FsOp
